@@ -216,16 +216,19 @@ DecodedFixed(f, d) == /\ Quant(f, Decode(f, d)) = Decode(f, d)
 \* ("file") or, once clear_mipmaps() erased it, the level above ("cleared") - and whether the
 \* lazily read frame has been loaded into memory, which must not be observable.
 NoTerm == [base |-> 0, avgs |-> 0, ed |-> FALSE]
-LvInit(mips) == [j \in 1..mips |-> [st |-> "file", loaded |-> FALSE, ed |-> FALSE, t |-> NoTerm]]
+\* sd: the frame of the level the thumbnail is made from (frame 0, depth 0 or the FRONT face) has
+\* its pixels in memory
+LvInit(mips) == [j \in 1..mips |-> [st |-> "file", loaded |-> FALSE, ed |-> FALSE, t |-> NoTerm, sd |-> FALSE]]
 Sel(sel, m) == CASE sel = "top" -> m = 0 [] sel = "small" -> m >= 1 [] OTHER -> TRUE
 \* loading or looking at a frame that is erased is not a documented way to keep or regenerate it
 CanLoad(lv, sel) == \A j \in 1..Len(lv) : Sel(sel, j - 1) => lv[j].st # "cleared"
-HLoad(lv, sel) == [j \in 1..Len(lv) |-> IF Sel(sel, j - 1) THEN [lv[j] EXCEPT !.loaded = TRUE] ELSE lv[j]]
-HAccess(lv, m) == [lv EXCEPT ![m + 1].loaded = TRUE]
+HLoad(lv, sel) == [j \in 1..Len(lv) |-> IF Sel(sel, j - 1) THEN [lv[j] EXCEPT !.loaded = TRUE, !.sd = TRUE] ELSE lv[j]]
+\* Frame[x, y] of frame 0, slice 0: that is the thumbnail's source frame except in a cubemap
+HAccess(lv, m, cube) == [lv EXCEPT ![m + 1].loaded = TRUE, ![m + 1].sd = @ \/ ~cube]
 \* writing a pixel of a frame (Frame[x, y] = p): the level now differs from its source in that pixel
-HPoke(lv, m) == [lv EXCEPT ![m + 1].loaded = TRUE, ![m + 1].ed = TRUE, ![m + 1].t.ed = TRUE]
+HPoke(lv, m, cube) == [lv EXCEPT ![m + 1].loaded = TRUE, ![m + 1].ed = TRUE, ![m + 1].t.ed = TRUE, ![m + 1].sd = @ \/ ~cube]
 \* clear_mipmaps(after): every level smaller than level `after` is erased
-HClear(lv, after) == [j \in 1..Len(lv) |-> IF j - 1 > after THEN [st |-> "cleared", loaded |-> FALSE, ed |-> FALSE, t |-> NoTerm]
+HClear(lv, after) == [j \in 1..Len(lv) |-> IF j - 1 > after THEN [st |-> "cleared", loaded |-> FALSE, ed |-> FALSE, t |-> NoTerm, sd |-> FALSE]
                                              ELSE lv[j]]
 \* the content of level m: the stored level `base` (with the pixels written since, if ed), averaged
 \* `avgs` times; an erased level is the average of the level above, a regenerated one ("gen") what
@@ -234,14 +237,31 @@ RECURSIVE Term(_, _)
 Term(lv, m) == CASE lv[m + 1].st = "file" -> [base |-> m, avgs |-> 0, ed |-> lv[m + 1].ed]
                  [] lv[m + 1].st = "gen" -> lv[m + 1].t
                  [] OTHER -> LET p == Term(lv, m - 1) IN [base |-> p.base, avgs |-> p.avgs + 1, ed |-> p.ed]
-\* compute_mipmaps(): erased levels are regenerated now, largest first, from the level above as it is now
+\* compute_mipmaps(): level 0 is loaded; erased levels are regenerated now, largest first, from the
+\* level above as it is now (which is loaded for that)
 RECURSIVE HComputeFrom(_, _)
 HComputeFrom(lv, j) ==
     IF j > Len(lv) THEN lv
     ELSE HComputeFrom(IF lv[j].st = "cleared"
-                      THEN [lv EXCEPT ![j] = [st |-> "gen", loaded |-> TRUE, ed |-> FALSE, t |-> Term(lv, j - 1)]]
+                      THEN [lv EXCEPT ![j] = [st |-> "gen", loaded |-> TRUE, ed |-> FALSE, t |-> Term(lv, j - 1), sd |-> TRUE],
+                                      ![j - 1].loaded = TRUE, ![j - 1].sd = TRUE]
                       ELSE lv, j + 1)
-HCompute(lv) == HComputeFrom(lv, 1)
+HCompute(lv) == HComputeFrom([lv EXCEPT ![1].loaded = TRUE, ![1].sd = TRUE], 1)
+
+(* ---- the low-res image (thumbnail) ------------------------------------------------------- *)
+\* compute_mipmaps() also regenerates the thumbnail from the level that is exactly twice its size,
+\* if the texture has such a level; otherwise the thumbnail stays what it is
+MatchLevels(c) == {m \in 0..(c.mip - 1) : MipDim(c.w, m) \div 2 = c.lw /\ MipDim(c.h, m) \div 2 = c.lh}
+HasMatch(c) == c.low # "NONE" /\ MatchLevels(c) # {}
+MatchLevel(c) == CHOOSE m \in MatchLevels(c) : \A n \in MatchLevels(c) : n <= m
+SrcSlice(c) == IF c.cube THEN 3 ELSE 0            \* CubeSide.FRONT
+\* thumbnail states: "file" lazy, as read (the stored bytes win until it is loaded); "mem" loaded;
+\* "erased" by clear_mipmaps() or never given (a new texture); "gen" regenerated
+TRegen(th, c, lv) == IF HasMatch(c) /\ lv[MatchLevel(c) + 1].sd /\ th # "file" THEN "gen" ELSE th
+\* what save() writes: the stored image, an average of the matching level, or the blank image
+TFinal(th) == CASE th \in {"file", "mem"} -> "stored" [] th = "gen" -> "avg" [] OTHER -> "blank"
+BlankPixel == <<0, 0, 0, 255>>
+BlankImg(n) == [q \in 1..n |-> BlankPixel]      \* what a frame without pixels loads as: opaque black
 \* the 16-bit-per-channel formats are not decoded: only their metadata is read
 HeaderOnly(f) == f \in {"RGBA16161616", "RGBA16161616F"}
 =============================================================================
